@@ -7,7 +7,7 @@ from vlib import faultlab, mcserver
 from vlib.faultlab import interpret
 from vlib.runner import Part, Violation
 
-from pymemcache.exceptions import MemcacheUnexpectedCloseError
+from pymemcache.exceptions import MemcacheError, MemcacheIllegalInputError, MemcacheUnexpectedCloseError
 
 PROPERTY = "C06"
 LEVEL = "fault_enumeration"
@@ -22,7 +22,7 @@ RULE = ("configuration = TCP with 1-3 resolved addresses (mixed families) / UNIX
         "(including ones abandoned in the address loop or before a failing wrap/setsockopt); the first fault-free call "
         "after a failure opens a fresh socket and answers correctly; connect() happens under connect_timeout and every "
         "sendall/recv under timeout; with TLS no I/O on the raw socket; if socket()/wrap fails for some resolved "
-        "addresses and works for a later one the call succeeds using that address. Object shutdown: Client / PooledClient / HashClient over three servers (pooled or not) / the ElastiCache client (pooled or not, with and without a reconfigure_nodes()) x traffic on 0, 1 or many keys x every documented way of shutting the object down (close, quit, disconnect_all), once and again after more traffic: afterwards no socket any part of the object opened is open. Non-trivial: a fault during "
+        "addresses and works for a later one the call succeeds using that address. Connection-ending calls (shutdown - graceful or not - on a server that does not allow it, quit, an unknown command, incr on text, refused arguments, close) once or twice in a row, before and after ordinary calls, without any fault: the connections opened afterwards are set up like the first. Object shutdown: Client / PooledClient / HashClient over three servers (pooled or not) / the ElastiCache client (pooled or not, with and without a reconfigure_nodes()) x traffic on 0, 1 or many keys x every documented way of shutting the object down (close, quit, disconnect_all), once and again after more traffic: afterwards no socket any part of the object opened is open. Non-trivial: a fault during "
         "connection establishment, or a failure followed by a successful reconnect, or more than one resolved address.")
 MANIFEST = {
     "category": "fault_enumeration",
@@ -75,6 +75,15 @@ def check(case):
             if name in ("raw-io-after-tls-wrap", "io-on-closed-socket"):
                 raise Violation([name, kind], "%s %r during %s" % (name, detail, where(i, call, out)))
         if out[0] == "exc":
+            if not fired and call.get("may_raise") and isinstance(out[1], MemcacheError):
+                # the server's own error reply (or an input error): the call fails, the connection is dropped, no fault involved
+                if isinstance(out[1], MemcacheIllegalInputError):
+                    state["prev_failed"] = False          # refused before any I/O: the connection is untouched
+                    return
+                if opened:
+                    raise Violation(["socket-open-after-failed-call", kind], "socket(s) %r still open after %s" % ([s.id for s in opened], where(i, call, out)))
+                state["prev_failed"] = True
+                return
             if not fired:
                 raise Violation(["unexpected-failure", kind, type(out[1]).__name__], "failed without any fault: %s" % where(i, call, out))
             if opened:
@@ -188,6 +197,29 @@ def sweep_cases(tier, seed):
                         yield dict(base, calls=calls)
 
 
+ENDING_OPS = [{"op": "shutdown"}, {"op": "shutdown", "args": [True]}, {"op": "quit"}, {"op": "raw_command", "command": b"bogus"},
+              {"op": "incr", "key": "t", "delta": 1}, {"op": "get", "key": "bad key"}, {"op": "cache_memlimit", "memlimit": 2 ** 40}, {"op": "stats", "args": ["nonsense"]},
+              {"op": "version"}, {"op": "close"}]
+
+
+def ending_cases(tier, seed):
+    """calls that end the connection themselves or draw an error reply from the server (shutdown - graceful or not - on a server
+    that does not allow it, quit, an unknown command, incr on text, a refused argument): the connections opened AFTERWARDS are
+    set up like the first one - same timeouts, options, TLS"""
+    for conf in CONFIGS:
+        for kind in ("client", "pooled", "hash"):
+            for r in ENDING_OPS:
+                if kind == "hash" and r["op"] in faultlab.HASH_UNSUPPORTED + ("stats", "quit"):
+                    continue
+                if kind == "pooled" and r["op"] == "cache_memlimit":
+                    continue
+                for twice in (False, True):
+                    d = _base(conf, kind)
+                    mid = [{"op": r, "may_raise": True}] * (2 if twice else 1)
+                    d["calls"] = [dict(BASE_CALLS[0])] + mid + [dict(BASE_CALLS[1])] + mid + [dict(c) for c in FINAL]
+                    yield d
+
+
 def history_strategy(tier):
     conf = st.sampled_from(CONFIGS)
     kind = st.sampled_from(["client", "client", "pooled", "hash"])
@@ -277,6 +309,7 @@ def check_shutdown(case):
 
 PARTS = [
     Part("object-shutdown", "enum", check_shutdown, cases=shutdown_cases, exhaustive=True),
+    Part("connection-ending-calls", "enum", check, cases=ending_cases, exhaustive=True),
     Part("fault-position-sweep", "enum", check, cases=sweep_cases, exhaustive=True),
     Part("random-histories", "hyp", check, strategy=history_strategy,
          examples={"quick": 250, "thorough": 12000}, shards={"quick": 4, "thorough": 16}),
